@@ -797,6 +797,10 @@ public:
     return out;
   }
 
+  bool hash_free_class(const std::string &vclass) const {
+    return vclass == "output-differs" || vclass == "uninitialised-dependent";
+  }
+
   Outcome execute(const Json &cj) {
     Outcome out;
     Cfg c = Cfg::from_json(cj);
